@@ -102,6 +102,19 @@ def cases(rng, tier):
                 f[n] = rng.choice([1, 1, -1, 2]); f[k] = rng.choice([1, 2, -2, 3]); f[j] = rng.choice([1, -1, -2, 5]); f[0] = rng.choice([1, -1, 2, 3])
                 add(f, 'quadrinomial-deg%d' % n)
                 if (k + j) % 3 == 0 or th: add(R.pcompose_shift(f, rng.choice([1, -1, 2])), 'quadrinomial-translate')
+    # every polynomial of degree 6 with at most three non-zero lower coefficients, all coefficients in
+    # {-2,-1,1,2}: the final division of the sub-resultant algorithm by b^(deg-1) differs from a division by the last leading
+    # coefficient only when the LAST step has a degree gap >= 2 with a remainder of degree >= 2 (e.g. -2x^6 + x^5 + x + 2)
+    import itertools
+    cnt = 0
+    for size in (1, 2, 3):
+        for pos in itertools.combinations(range(6), size):
+            for cs in itertools.product((-2, -1, 1, 2), repeat=size + 1):
+                cnt += 1
+                f = [0] * 7
+                f[6] = cs[0]
+                for q_, c_ in zip(pos, cs[1:]): f[q_] = c_
+                add(f, 'sparse-deg6-enumeration')
     # repeated factors
     for k in range(80 if not th else 800):
         h = R.rpoly(rng, rng.randrange(1, 4), rng.choice([2, 6, 20]))
